@@ -79,10 +79,20 @@ theorem density_post {d k : Nat} (G : Matrix (Fin d) (Fin k) ℂ) (h : (G * Gᴴ
     (densityOf G).PosSemidef ∧ (densityOf G).trace = 1 ∧ (densityOf G).rank ≤ k :=
   ⟨density_psd G, density_trace G h, density_rank G⟩
 
-/-- **Bures option** as specified (`(𝟙 + U) G` with `U` the random unitary and `G` the `d×k` Ginibre draw): the final
-factor still has `k` columns, so the result is a density operator of rank at most `k`.
-(The unchanged source reads `U + 𝟙 @ G`: for `k = d` that is the `d×d` factor `U + G`, covered by `density_post` with
-rank bound `d`; for `k < d` it broadcasts or raises — reported by the correspondence check.) -/
+/-- hypothesis of `density_post`: the `2×1` factor `(1, i)ᵀ` has `tr(G Gᴴ) = 2 ≠ 0` -/
+example : let G : Matrix (Fin 2) (Fin 1) ℂ := Matrix.of fun i _ => if i = 0 then 1 else Complex.I
+    (G * Gᴴ).trace ≠ 0 := by
+  intro G
+  have : (G * Gᴴ).trace = 2 := by
+    simp [Matrix.trace, Matrix.diag, Matrix.mul_apply, G, Fin.sum_univ_two]
+    norm_num
+  rw [this]; norm_num
+
+/-- **Bures option** (`(𝟙 + U) G` with `U` the random unitary and `G` the `d×k` Ginibre draw): the final factor still has `k`
+columns, so the result is a density operator of rank at most `k`.
+(Without the parentheses, `U + 𝟙 @ G`, the factor is `U + G`: a `d×d` matrix when `k = d` — `density_post` then only gives rank
+`≤ d` — and a broadcast / shape error when `k < d`; the correspondence check reports that.  The hypothesis fails exactly when
+`(𝟙 + U) G = 0`, which for random draws happens only for `d = 1`, `U = −1`: there the code must not divide by the zero trace.) -/
 theorem density_bures_post {d k : Nat} (U : Matrix (Fin d) (Fin d) ℂ) (G : Matrix (Fin d) (Fin k) ℂ)
     (h : (((1 + U) * G) * ((1 + U) * G)ᴴ).trace ≠ 0) :
     (densityOf ((1 + U) * G)).PosSemidef ∧ (densityOf ((1 + U) * G)).trace = 1 ∧
@@ -95,6 +105,13 @@ theorem unitary_post {R : Type*} [CommRing R] [StarRing R] {ι : Type*} [Fintype
     (Q : Matrix ι ι R) (u : ι → R) (hQ : Qᴴ * Q = 1) (hu : ∀ i, star (u i) * u i = 1) :
     (Q * diagonal u)ᴴ * (Q * diagonal u) = 1 ∧ (Q * diagonal u) * (Q * diagonal u)ᴴ = 1 :=
   ⟨unitary_post_left Q u hQ hu, unitary_post_right Q u hQ hu⟩
+
+/-- hypotheses of `unitary_post` on a non-trivial instance: `Q` the swap matrix, phases `i` and `-1` -/
+example : (!![0, 1; 1, 0] : Matrix (Fin 2) (Fin 2) ℂ)ᴴ * !![0, 1; 1, 0] = 1 ∧
+    ∀ i : Fin 2, star ((![Complex.I, -1] : Fin 2 → ℂ) i) * (![Complex.I, -1] : Fin 2 → ℂ) i = 1 := by
+  constructor
+  · ext a b; fin_cases a <;> fin_cases b <;> simp [Matrix.mul_apply, Fin.sum_univ_two]
+  · intro i; fin_cases i <;> simp
 
 /-- complex case with the code's diagonal `np.sign(np.diag(R))`, zeros replaced by 1 -/
 theorem unitary_post_csign {ι : Type*} [Fintype ι] [DecidableEq ι] (Q : Matrix ι ι ℂ) (r : ι → ℂ) (hQ : Qᴴ * Q = 1) :
@@ -192,6 +209,22 @@ theorem pgm_is_povm {ι κ : Type*} [Fintype ι] [DecidableEq ι] [Fintype κ]
     (hSPS : S * (∑ i, (p i : ℂ) • ρ i) * S = 1) :
     IsPOVM (fun i => S * ((p i : ℂ) • ρ i) * S) :=
   Toq.Rand.pgm_is_povm ρ p S hρ hp hS hSPS
+
+/-- hypotheses of `pgm_is_povm`: the ensemble `{(1/4, |0⟩⟨0|), (1/4, |1⟩⟨1|)}` (unnormalised priors) with `S = 2·𝟙` -/
+example : let ρ : Fin 2 → Matrix (Fin 2) (Fin 2) ℂ := fun i => diagonal fun j => if j = i then 1 else 0
+    let p : Fin 2 → ℝ := fun _ => 1 / 4
+    let S : Matrix (Fin 2) (Fin 2) ℂ := (2 : ℂ) • 1
+    (∀ i, (ρ i).PosSemidef) ∧ (∀ i, 0 ≤ p i) ∧ Sᴴ = S ∧ S * (∑ i, (p i : ℂ) • ρ i) * S = 1 := by
+  intro ρ p S
+  refine ⟨fun i => PosSemidef.diagonal (fun j => ?_), fun i => by norm_num, ?_, ?_⟩
+  · show (0 : ℂ) ≤ if j = i then 1 else 0
+    split_ifs
+    · exact zero_le_one
+    · exact le_refl _
+  · ext a b; fin_cases a <;> fin_cases b <;> simp [S, Matrix.conjTranspose_apply, Matrix.smul_apply]
+  · ext a b
+    fin_cases a <;> fin_cases b <;>
+      simp [S, ρ, p, Fin.sum_univ_two, Matrix.mul_apply, Matrix.smul_apply, Matrix.one_apply] <;> norm_num
 
 /-- **PBM is a POVM**: for any POVM `G` with `n ≥ 2` outcomes, `Bᵢ = (1 − Gᵢ)/(n − 1)` is a POVM. -/
 theorem pbm_is_povm {ι κ : Type*} [Fintype ι] [DecidableEq ι] [Fintype κ]
